@@ -639,3 +639,91 @@ func spAnswer(res *router.VerifScmpResult) string {
 		infosStr(dec.InfoFields), hopsHex(dec.HopFields), typ, code, info, b2i(rp.hasE2E), b2i(typ < 128), q,
 		b2i(front), res.OutOff)
 }
+
+// ---------------------------------------------------------------------------------------------
+// T1 at byte level: checksum and authenticator input of an emitted message
+
+func fnv64(b []byte) uint64 {
+	h := uint64(0xcbf29ce484222325)
+	for _, c := range b {
+		h = (h ^ uint64(c)) * 0x100000001b3
+	}
+	return h
+}
+
+// infoStr renders the info block of an SCMP message of the types the router emits.
+func infoStr(typ int, ib []byte) string {
+	switch typ {
+	case 4:
+		return fmt.Sprintf("%d", binary.BigEndian.Uint16(ib[2:]))
+	case 5:
+		return fmt.Sprintf("%d.%d", binary.BigEndian.Uint64(ib), binary.BigEndian.Uint64(ib[8:]))
+	case 6:
+		return fmt.Sprintf("%d.%d.%d", binary.BigEndian.Uint64(ib), binary.BigEndian.Uint64(ib[8:]), binary.BigEndian.Uint64(ib[16:]))
+	case 131:
+		return fmt.Sprintf("%d.%d.%d.%d", binary.BigEndian.Uint16(ib), binary.BigEndian.Uint16(ib[2:]),
+			binary.BigEndian.Uint64(ib[4:]), binary.BigEndian.Uint64(ib[12:]))
+	}
+	return "-"
+}
+
+// ckOp: the model recomputes the checksum from the decoded fields; the answer is the checksum
+// field of the real message.
+func ckOp(out []byte) (op, ans string, ok bool) {
+	rp, err := parsePkt(out)
+	if err != nil || rp.next != slayers.L4SCMP || len(rp.pld) < 4 {
+		return "", "", false
+	}
+	typ := int(rp.pld[0])
+	ibl := map[int]int{1: 4, 4: 4, 5: 16, 6: 24, 131: 20}[typ]
+	if ibl == 0 || len(rp.pld) < 4+ibl {
+		return "", "", false
+	}
+	if typ == 1 && !bytes.Equal(rp.pld[4:8], []byte{0, 0, 0, 0}) || typ == 4 && (rp.pld[4] != 0 || rp.pld[5] != 0) {
+		return "", "", false // reserved bytes are not fields of the model
+	}
+	op = fmt.Sprintf("ck %d %d %s %s %d %d %s %s", uint64(rp.scn.SrcIA), uint64(rp.scn.DstIA),
+		vlib.Hex(rp.scn.RawSrcAddr), vlib.Hex(rp.scn.RawDstAddr), typ, rp.pld[1], infoStr(typ, rp.pld[4:4+ibl]),
+		vlib.Hex(rp.pld[4+ibl:]))
+	return op, fmt.Sprintf("%d", binary.BigEndian.Uint16(rp.pld[2:])), true
+}
+
+// auOp: the model builds the authenticator input of the reply header; the answer is length and
+// FNV-64 of what the real serializeAuthenticatedData produces, followed by the payload.
+func auOp(out []byte) (op, ans string, ok bool) {
+	rp, err := parsePkt(out)
+	if err != nil || !rp.hasE2E || rp.next != slayers.L4SCMP {
+		return "", "", false
+	}
+	var e2e slayers.EndToEndExtn
+	if err := e2e.DecodeFromBytes(rp.e2eRaw, gopacket.NilDecodeFeedback); err != nil {
+		return "", "", false
+	}
+	opt, err := e2e.FindOption(slayers.OptTypeAuthenticator)
+	if err != nil {
+		return "", "", false
+	}
+	ao, err := slayers.ParsePacketAuthOption(opt)
+	if err != nil {
+		return "", "", false
+	}
+	raw, isRaw := rp.scn.Path.(*scion.Raw)
+	if !isRaw {
+		return "", "", false
+	}
+	dec, err := raw.ToDecoded()
+	if err != nil {
+		return "", "", false
+	}
+	buf := make([]byte, spao.MACBufferSize)
+	n, err := spao.VerifSerializeAuthenticatedData(buf, &rp.scn, ao, slayers.L4SCMP, rp.pld)
+	if err != nil {
+		return "", "", false
+	}
+	in := append(append([]byte(nil), buf[:n]...), rp.pld...)
+	op = fmt.Sprintf("au %d %d %d %d %d %d %s %s %d %s %s %d %s", rp.scn.TrafficClass, rp.scn.FlowID,
+		int(rp.scn.DstAddrType), int(rp.scn.SrcAddrType), uint64(rp.scn.DstIA), uint64(rp.scn.SrcIA),
+		vlib.Hex(rp.scn.RawDstAddr), vlib.Hex(rp.scn.RawSrcAddr), binary.BigEndian.Uint32(raw.Raw[:4]),
+		infosStr(dec.InfoFields), hopsHex(dec.HopFields), ao.TimestampSN(), vlib.Hex(rp.pld))
+	return op, fmt.Sprintf("%d %d", len(in), fnv64(in)), true
+}
